@@ -56,7 +56,7 @@ def deep_eq(a, b):
     return insp(a) == insp(b) and type(a) == type(b)
 
 
-OBJ_NAMES = ["a", "b", "zz", "Bq", "_p", "_q", "a1", "k?"]
+OBJ_NAMES = ["a", "b", "zz", "Bq", "_p", "_q", "a1", "k?", "__c", "__", "a_", "_Z"]
 MAP_KEYS = [1, 2, -1, 0, "a", "b", "1", "", None, True, False, 1.5, 0.0, -0.0, 2.0,
             ("arr", (1,)), ("arr", ()), ("arr", (1, 2)), ("obj", (("x", 1),)), ("obj", ())]
 
